@@ -219,6 +219,7 @@ def render_arg(ex, arg, flags=0, width=None):
     elif kind in ('display', 'debug') and is_sym(v):
         t = ty.lstrip('&').strip()
         if t == 'char': return [v]
+        if getattr(ex.W, 'opaque_int_format', False): return [0xFFFD]      # opt-in per obligation: diagnostic wording is not the subject
         raise Unsupported('formatting of symbolic integer')
     elif kind in ('display', 'debug'):
         t = ty.strip()
